@@ -107,6 +107,22 @@ def check_fifo(prop, tier, seed, replay):
         total_exec = total_calls = total_events = nontriv = tstates = 0
         samples, reported, allbad = [], [], 0
         exhaustive = True
+        # design level: the ordering design itself (callers, send queue, sender, network, server loop with the
+        # hand-over mutex) explored exhaustively in Channel.tla
+        dstates = dtrans = 0
+        design = []
+        if not replay:
+            import check_life
+            for name in (["two-two-b0-noclose", "sw-nsw-b1"] if tier == "quick" else
+                         ["two-two-b0", "two-two-b1", "sw-nsw-b1", "three-b0", "stream-two-b0"]):
+                out, gen, dist, rc = tlc("ChannelMC", check_life.channel_cfg(name, []), work, workers=16, timeout=3000)
+                if not tlc_ok(out):
+                    raise Infra("design-level check of Channel.tla (%s) failed:\n%s" % (name, out[-3000:]))
+                dstates += dist
+                dtrans += gen
+                design.append({"config": name, "states": dist, "transitions": gen})
+                log("design level: Channel.tla %s: %d distinct states; FifoPerConn, NoDoubleStart, OneUnreleased hold" %
+                    (name, dist))
         for sb in settings:
             trace = os.path.join(work, "trace-%d.ndjson" % sb)
             stats = os.path.join(work, "stats-%d.json" % sb)
@@ -163,7 +179,7 @@ def check_fifo(prop, tier, seed, replay):
                 return 1
             log("replay accepted")
             return 0
-        cov = {"states": max(gdist, 1), "transitions": max(ggen, 1),
+        cov = {"states": max(dstates, 1), "transitions": max(dtrans, 1),
                "traces_validated_against_impl": total_exec - allbad,
                "evaluations": total_exec, "distinct_nontrivial": nontriv,
                "rule": "programs = the %s family of FifoGen.tla (ordered pairs%s of call variants over all 16 Puppet methods "
@@ -172,8 +188,7 @@ def check_fifo(prop, tier, seed, replay):
                        (prop, " and selected triples" if len3 else ""),
                "samples": samples, "exhaustive": exhaustive, "programs_generated": gdist, "calls": total_calls,
                "trace_events": total_events, "trace_states": tstates, "send_buffers": settings,
-               "design_level": "the ordering design itself is explored exhaustively in Channel.tla (see C09/C12 evidence); "
-                               "this check binds the per-connection guarantees (Fifo.tla) to executions of the real code"}
+               "design_level": design}
         write_evidence(prop, tier, seed, "model_checking", cov, time.time() - t0, allbad,
                        ["Before(c1,c2) is taken from the driver's StubRet/StubCall events (happens-before of one goroutine)",
                         "a premature handler start is rejected whenever it is recorded; the observation window only "
